@@ -203,6 +203,26 @@ func propC17(a *Analysis, r *Registry) {
 					b.EqRF("B-C17 minor", cn+"/n-init", where, ni, env.MustParse("f0"), "≡ spacingAtLevel(0, true) firstN")
 					b.EqRF("B-C17 minor", cn+"/n-step", where, nn, env.MustParse("n+1"), "≡ n+1")
 					nh := X.phiOf[n.SingleAtom().ID].Block()
+					// the minor form is produced exactly for negative levels (level 0 must give the
+					// powers of the base themselves)
+					if fc.Fn == fn {
+						fc0 := X.FCFor(fn)
+						var nl *Loop
+						for _, l := range fc0.Ctx.Loops() {
+							if l.Header == nh {
+								nl = l
+							}
+						}
+						if nl != nil {
+							entry := S.False()
+							for _, p := range fc0.Ctx.LivePreds(nh) {
+								if !nl.Body[p.Index] {
+									entry = S.Or(entry, S.And(fc0.ReachCond(p), fc0.edgeCond(p, nh)))
+								}
+							}
+							b.EqRF("C-decision", cn+"/when", where, entry, env.MustParse("level<0"), "the minor ticks are generated exactly when level < 0")
+						}
+					}
 					if ifi, ok := nh.Instrs[len(nh.Instrs)-1].(*ssa.If); ok {
 						b.EqRF("B-C17 minor", cn+"/n-bound", a.W.InstrPos(ifi), fc.Val(ifi.Cond), env.MustParse("n<=l0"), "≡ n <= spacingAtLevel(0, true) lastN")
 					} else {
@@ -222,6 +242,8 @@ func propC17(a *Analysis, r *Registry) {
 			// negate-in-place ticks[i] = -ticks[i]
 			mirrorNeg, mirrorSwap, negInPlace, other := 0, 0, 0, 0
 			var ticks *RF
+			var mirrorI, mirrorJ *RF
+			var mirrorFC *FC
 			for _, fc := range top.BoundCallees(1) {
 				fc := fc
 				fc.Ctx.Instrs(func(in ssa.Instruction) {
@@ -249,6 +271,11 @@ func propC17(a *Analysis, r *Registry) {
 					e.Set("ticks", ticks, nil)
 					// mirror positions: i + j == len(ticks)-1, syntactically or as a loop invariant of two counters
 					mirror := fc.InvariantEq(i.Add(j), e.MustParse("len(ticks)-1"))
+					if mirror {
+						if mirrorI == nil || len(i.String()) < len(mirrorI.String()) {
+							mirrorI, mirrorJ, mirrorFC = i, j, fc
+						}
+					}
 					switch {
 					case mirror && negated:
 						mirrorNeg++
@@ -264,6 +291,75 @@ func propC17(a *Analysis, r *Registry) {
 						other++
 					}
 				})
+			}
+			// the exchange covers the whole slice, each pair once: the lower index runs 0, 1, … while
+			// it is below the middle — (len+1)/2 when the exchange also negates (the middle element of
+			// an odd count must be negated once), len/2 or (len+1)/2 for a pure swap; with two
+			// counters (`i <= j`, `i < j`) the upper one is len-1-i throughout
+			if mirrorI != nil && (mirrorNeg == 2 || mirrorSwap == 2) && ticks != nil {
+				e := X.EnvFor(fn, "t", "level")
+				e.Set("ticks", ticks, nil)
+				half := []*RF{e.MustParse("idiv(len(ticks)+1,2)")}
+				if mirrorSwap == 2 {
+					half = append(half, e.MustParse("idiv(len(ticks),2)"))
+				}
+				cn := name + "/negated-domain/covers-all"
+				where := b.pos(fn)
+				done := false
+				ownPhis := func(v *RF) []*RF {
+					var out []*RF
+					for _, ph := range mirrorFC.loopPhis(v) {
+						if pa := ph.SingleAtom(); pa != nil && X.phiOf[pa.ID] != nil && X.phiOf[pa.ID].Block().Parent() == mirrorFC.Fn && len(FindAtomID(v, pa.ID)) > 0 {
+							direct := false
+							for _, t := range v.Atoms(false) {
+								if t.ID == pa.ID {
+									direct = true
+								}
+							}
+							if direct {
+								out = append(out, ph)
+							}
+						}
+					}
+					return out
+				}
+				if ipn, jpn := ownPhis(mirrorI), ownPhis(mirrorJ); len(jpn) == 1 && len(ipn) == 1 && !jpn[0].Equal(ipn[0]) {
+					// two counters: the guard with the upper one replaced by len-1-i
+					ip, jp := ipn[0], jpn[0]
+					hdr := X.phiOf[ip.SingleAtom().ID].Block()
+					ii, in := recurrenceOrNil(mirrorFC, ip)
+					_, jn := recurrenceOrNil(mirrorFC, jp)
+					_, cond, guard, msg := b.loopGuard(mirrorFC, hdr)
+					var lp *Loop
+					for _, l := range mirrorFC.Ctx.Loops() {
+						if l.Header == hdr {
+							lp = l
+						}
+					}
+					if msg == "" && ii != nil && jn != nil && lp != nil && ii.Equal(S.Int(0)) && in.Equal(ip.Add(S.Int(1))) && jn.Equal(jp.Sub(S.Int(1))) && b.leftEarly(mirrorFC, lp, guard) == "" {
+						// i and j as the indexes actually used
+						sub := map[AtomID]*RF{jp.SingleAtom().ID: e.MustParse("len(ticks)-1").Sub(mirrorI).Add(jp).Sub(mirrorJ)}
+						c2 := cond.Subst(sub)
+						for _, h := range half {
+							want := S.Cmp("<", mirrorI, h)
+							if c2.Equal(want) || X.EquivByCases(c2, want, 0) {
+								done = true
+							}
+						}
+					}
+					if done {
+						r.OK("C-scan coverage", cn, where, "two counters meeting in the middle: every pair is exchanged once")
+					} else {
+						r.Fail("C-scan coverage", cn, where, "the exchange loop does not run exactly while the lower index is below the middle: "+clip(cond.String(), 160))
+					}
+				} else {
+					alts := []func(){}
+					for _, h := range half {
+						h := h
+						alts = append(alts, func() { b.FullScan("C-scan coverage", cn, where, mirrorFC, mirrorI, h) })
+					}
+					b.AnyOf(alts...)
+				}
 			}
 			// the exchange delegated to package slices (or the repository's own in-place Reverse)
 			// on the negated slice
@@ -375,6 +471,17 @@ func propC17(a *Analysis, r *Registry) {
 			b.EqUnder(rB, name+"/Max'", b.pos(fn), fcOK, fcOK.FieldAtExit(0, "Max"), e, "pow(s.spacingAtLevel(level, true)#2, s.spacingAtLevel(level, true)#1)")
 			fcNo := X.Under(fn, append(base, X.AssumeEq(okv, S.False()))...)
 			b.Eq(rB, name+"/unchanged-on-failure/Min", b.pos(fn), fcNo.FieldAtExit(0, "Min"), e, "s.Min")
+			b.Eq(rB, name+"/unchanged-on-failure/Max", b.pos(fn), fcNo.FieldAtExit(0, "Max"), e, "s.Max")
+			// a negative domain: the powers are negated and exchanged (Min' = −base^lastN, Max' = −base^firstN)
+			negBase := []Assumption{X.AssumeCond(env.MustParse("s.Min==s.Max"), false), X.AssumeCond(env.MustParse("s.Min<0"), true)}
+			fcN := X.Under(fn, negBase...)
+			callN := fcN.TheCallTo("scale.(*TickOptions).FindLevel")
+			lvlN, okN := tupleOf(fcN, callN, 0), tupleOf(fcN, callN, 1)
+			fcNOK := X.Under(fn, append(negBase, X.AssumeEq(okN, S.True()))...)
+			eN := X.EnvFor(fn, "s", "o")
+			eN.Set("level", lvlN, nil)
+			b.EqUnder(rB, name+"/negative/Min'", b.pos(fn), fcNOK, fcNOK.FieldAtExit(0, "Min"), eN, "-pow(s.spacingAtLevel(level, true)#2, s.spacingAtLevel(level, true)#1)")
+			b.EqUnder(rB, name+"/negative/Max'", b.pos(fn), fcNOK, fcNOK.FieldAtExit(0, "Max"), eN, "-pow(s.spacingAtLevel(level, true)#2, s.spacingAtLevel(level, true)#0)")
 		})
 	}
 	// FindLevel
